@@ -1947,6 +1947,9 @@ FILES_MERKLE = [("Merkle", "packages/contract-utils/src/crypto/hashable.rs", ["c
                 ("Merkle", "packages/contract-utils/src/crypto/merkle.rs", ["verify", "verify_with_index"])]
 TYMAPS_MERKLE = {"packages/contract-utils/src/crypto/hashable.rs": {"H": "Bytes32", "S": "Hasher!", "Output": "Bytes32"},
                  "packages/contract-utils/src/crypto/merkle.rs": {"H": "Hasher!"}}
+STORE_UP = {"Upgradeable": {"Migrating": ([], "bool")}}
+FILES_UP = [("Upgradeable", "packages/contract-utils/src/upgradeable/storage.rs",
+             ["enable_migration", "can_complete_migration", "complete_migration", "ensure_can_complete_migration"])]
 STORE_AL = {"AllowTok": dict(STORE_FUNGIBLE["Fungible"], **{"Allowed": (["Address"], "()")})}
 READS_AL = {"AllowTok": READS_FUNGIBLE["Fungible"]}
 FILES_AL = [("AllowTok", "packages/tokens/src/fungible/storage.rs",
@@ -2498,7 +2501,9 @@ def main():
                 sys.stdout.write(txt)
         sys.exit(rc)
     try:
-        if "--allowlist" in sys.argv:
+        if "--upgradeable" in sys.argv:
+            txt = translate(repo, FILES_UP, reads={"Upgradeable": {}}, store=STORE_UP)
+        elif "--allowlist" in sys.argv:
             txt = translate(repo, FILES_AL, reads=READS_AL, structs=STRUCTS_FUNGIBLE, store=STORE_AL,
                             impl_types={"Base": "AllowTok", "AllowList": ("AllowTok", "al_")},
                             fn_prefix={"packages/tokens/src/fungible/extensions/allowlist/storage.rs": "al_"},
